@@ -146,9 +146,13 @@ class Check:
         self.obligations.append(rec)
         self.count(rule)
 
-    def canary(self, name, fired: bool, detail=""):
-        self.canaries.append({"name": name, "fired": bool(fired), "detail": detail})
-        if not fired:
+    def canary(self, name, fired, detail=""):
+        """fired: True / False, or None when the edit could not be applied to this tree (shape changed): recorded as
+        skipped; only a canary that WAS applied and did not fire, or a check whose canaries were all skipped, is an error"""
+        if fired is False and "transform did not apply" in (detail or ""):
+            fired = None
+        self.canaries.append({"name": name, "fired": fired if fired is None else bool(fired), "detail": detail})
+        if fired is False:
             self.error("canary %s did not fire (%s): the rule would pass vacuously" % (name, detail))
 
     # -- finish
@@ -172,6 +176,8 @@ class Check:
                 json.dump({"property": self.pid, "tier": self.tier, "violations": [f.as_dict() for f in new]}, fh, indent=1)
             for f in new:
                 self.say("FINDING property=%s %s [%s] %s — %s" % (self.pid, f.where(), f.rule, f.construct, f.what))
+        if self.canaries and all(c["fired"] is None for c in self.canaries):
+            self.error("no canary could be applied to this tree: the rules cannot be shown to fire")
         n_ob = len(self.obligations)
         n_ok = sum(1 for o in self.obligations if o["verdict"] == HOLDS)
         n_bad = sum(1 for o in self.obligations if o["verdict"] == VIOLATION)
@@ -215,7 +221,7 @@ class Check:
             json.dump(ev, fh, indent=1, default=str)
         self.say("%s tier=%s obligations=%d holds=%d refuted=%d unknown=%d known=%d new=%d canaries=%d/%d wall=%.2fs" % (
             self.pid, self.tier, n_ob, n_ok, n_bad, n_unk, len(listed), len(new),
-            sum(1 for c in self.canaries if c["fired"]), len(self.canaries), wall))
+            sum(1 for c in self.canaries if c["fired"]), sum(1 for c in self.canaries if c["fired"] is not None), wall))
         if new:
             # a refuted clause is a violation even if another clause could not be analysed
             print("VIOLATION property=%s replay=%s" % (self.pid, replay))
